@@ -16,23 +16,35 @@ func BeginBlocker(ctx sdk.Context, _ abci.RequestBeginBlock, k keeper.Keeper) {
 	_ = utils.ApplyFuncIfNoError(ctx, func(ctx sdk.Context) error {
 		k.TriggerAndUpdateEpochInfos(ctx)
 
-		err := k.DistributeExtRewardLocker(ctx)
+		// every distribution runs on its own cache context: one that reports failure after it has paid
+		// out or written leaves nothing behind, and the distributions after it still run
+		err := utils.ApplyFuncIfNoError(ctx, func(ctx sdk.Context) error {
+			return k.DistributeExtRewardLocker(ctx)
+		})
 		if err != nil {
 			ctx.Logger().Error("error in DistributeExtRewardLocker")
 		}
-		err = k.DistributeExtRewardVault(ctx)
+		err = utils.ApplyFuncIfNoError(ctx, func(ctx sdk.Context) error {
+			return k.DistributeExtRewardVault(ctx)
+		})
 		if err != nil {
 			ctx.Logger().Error("error in DistributeExtRewardVault")
 		}
-		err = k.DistributeExtRewardLend(ctx)
+		err = utils.ApplyFuncIfNoError(ctx, func(ctx sdk.Context) error {
+			return k.DistributeExtRewardLend(ctx)
+		})
 		if err != nil {
 			ctx.Logger().Error("error in DistributeExtRewardLend")
 		}
-		err = k.CombinePSMUserPositions(ctx)
+		err = utils.ApplyFuncIfNoError(ctx, func(ctx sdk.Context) error {
+			return k.CombinePSMUserPositions(ctx)
+		})
 		if err != nil {
 			ctx.Logger().Error("error in CombinePSMUserPositions")
 		}
-		err = k.DistributeExtRewardStableVault(ctx)
+		err = utils.ApplyFuncIfNoError(ctx, func(ctx sdk.Context) error {
+			return k.DistributeExtRewardStableVault(ctx)
+		})
 		if err != nil {
 			ctx.Logger().Error("error in DistributeExtRewardStableMint")
 		}
